@@ -6,8 +6,8 @@ Configuration name: `w<bits>-<std|nostd>-<dev|rel>`
          => base/src/math/log.rs uses the table-driven log2 estimator)
   dev    cargo dev profile (debug assertions and overflow checks on);  rel = --release (both off)
 
-The eight supported configurations are cached under /verif/.cache/cfg-<name> (incremental rebuilds); the unsupported one
-is built under a `mktemp -d` directory outside /repo and /verif that is removed when the process exits.
+The eight supported configurations and the unsupported one are cached under /verif/.cache/cfg-<name> (incremental rebuilds;
+`./setup.sh` pre-builds them); any other configuration is built under a `mktemp -d` directory that is removed when the process exits.
 `build(confs)` returns (manifest path, info): the manifest has one line per configuration,
 `<conf> <path to exec_cfg>` or `<conf> !<reason>` when the configuration does not build; the front
 binary `exec_cfg` reads it (env DASHU_CFG_MANIFEST)."""
@@ -40,7 +40,8 @@ def target_dir(conf):
     # every supported configuration keeps its target directory under .cache (incremental rebuilds: on a loaded machine a
     # from-scratch build of one worker takes tens of minutes); only the configuration known not to compile is built in a
     # scratch directory
-    if conf in QUICK or conf in ALL:
+    # (round 6: the unsupported configuration too - its dependencies compile once, the failing crate is retried in seconds)
+    if conf in QUICK or conf in ALL or conf == UNSUPPORTED:
         return os.path.join(core.CACHE, "cfg-" + conf)
     return os.path.join(_tmp(), "cfg-" + conf)
 
@@ -54,8 +55,22 @@ def build_one(conf):
         # machine: lower it (appended to RUSTFLAGS after cargo's own -C opt-level, so it wins)
         cfgs[-1] = cfgs[-1] + " -C opt-level=1"
     feats = "std,num-order,serde" if std else "num-order,serde"
-    rc, out, bindir, dt = core.cargo_build(profile="dev" if dev else "release", cfgs=tuple(cfgs), features=feats,
-                                           target_sub=target_dir(conf), bins=["exec_cfg"])
+    # In a trial (VERIF_REPO = scratch copy) core.cargo_build creates a shadow manifest directory on first use
+    # (`if not islink: os.symlink`); the configurations are built in parallel, so two threads can both find the link missing
+    # and the loser raises FileExistsError - which used to end the whole check with a traceback (exit 1, no verdict line;
+    # seen with seeded/C19-7).  Retry (the link exists by then); any other exception is this configuration's build failure.
+    for attempt in (0, 1, 2):
+        try:
+            rc, out, bindir, dt = core.cargo_build(profile="dev" if dev else "release", cfgs=tuple(cfgs), features=feats,
+                                                   target_sub=target_dir(conf), bins=["exec_cfg"])
+            break
+        except FileExistsError:
+            time.sleep(0.2)
+            continue
+        except Exception as e:
+            return conf, "!exception_" + re.sub(r"[^A-Za-z0-9_.:/\-]+", "_", repr(e))[:150], 0.0, repr(e)
+    else:
+        return conf, "!exception_shadow_manifest_race", 0.0, ""
     exe = os.path.join(bindir, "exec_cfg")
     if rc != 0 or not os.path.exists(exe):
         errs = [l for l in out.splitlines() if l.startswith("error")]
